@@ -726,7 +726,7 @@ func (e *engine) Run(src *vs.Source, tier string, idx int64) (res *simkit.RunRes
 				res.Stats["op/"+ent.name]++
 				res.Stats["callbacks"] += r.CBs
 				res.Stats["fault/callback-abort"] += r.Aborts
-				if r.Retained {
+				if r.Retained && !r.KeptOnly {
 					res.Stats["fault/buffer-reuse"]++
 				}
 				if r.Fault != "" {
